@@ -30,7 +30,16 @@ def mask_kind(t):
 
 def batch_around(lines, ln):
     """the consecutive lines (1-based ln) that the harness composited in one call"""
-    key = lines[ln - 1].split(" ")[:5]
+    t0 = lines[ln - 1].split(" ")
+    if len(t0) > 8 and t0[8].startswith("@"):      # wide row: all w*h lines of the composite
+        a = ln - 1
+        while a > 0 and lines[a - 1].split(" ")[8:9] == t0[8:9]:
+            a -= 1
+        b = ln
+        while b < len(lines) and lines[b].split(" ")[8:9] == t0[8:9]:
+            b += 1
+        return lines[a:b], ln - 1 - a
+    key = t0[:5]
     a = ln - 1
     while a > 0 and lines[a - 1].split(" ")[:5] == key and ln - 1 - a < 40:
         a -= 1
@@ -65,7 +74,7 @@ def _job(args):
     with open(ops) as f:
         lines = f.read().split("\n")
     nreq = len(lines) - (1 if lines and lines[-1] == "" else 0)
-    if n != nreq or n == 0:
+    if (n != nreq and len(dis) < 200) or n == 0:      # diff_streams stops at its limit of disagreements: that is not a short stream
         res["findings"].append(dict(kind="stream", config=cname, disable=disable, line="(stream)", impl=None, model=None,
                                     text=f"stream incomplete: {n} compared of {nreq} requests; harness exit {r1.returncode} "
                                          f"{r1.stderr[-200:]!r}; driver exit {r2.returncode} {r2.stderr[-200:]!r}; seed {seed}", batch=[]))
@@ -99,8 +108,22 @@ def _job(args):
     if orc_lines or dis:
         impl_lines = open(impl).read().split("\n")
         model_lines = open(model).read().split("\n")
+    nwide_f = 0
+
+    def wide_note(ln, idx):
+        """wide rows: every pixel of a 2000+ pixel composite may fail; four findings (with the whole row as batch) are enough"""
+        nonlocal nwide_f
+        t = lines[ln - 1].split(" ")
+        if len(t) > 8 and t[8].startswith("@"):
+            nwide_f += 1
+            return f" (wide row {t[8]}: pixel {idx} of the rectangle, row-major)", nwide_f > 4
+        return "", False
     for ln, text in list(orc_lines.items())[:200]:
         batch, idx = batch_around(lines, ln)
+        note, skip = wide_note(ln, idx)
+        if skip:
+            continue
+        text += note
         kind_ = "pair" if text.startswith("pair") else ("oracle-blend" if text.startswith("blend") else "oracle-spec")
         pm = re.search(r"\(line (\d+):", text) if kind_ == "pair" else None
         if pm:      # the presentation it was compared with runs first in a replay
@@ -111,9 +134,12 @@ def _job(args):
         if ln in orc_lines:
             continue                      # already reported as the library's deviation from the Spec
         batch, idx = batch_around(lines, ln)
+        note, skip = wide_note(ln, idx)
+        if skip:
+            continue
         res["findings"].append(dict(kind="model-disagree", config=cname, disable=disable, line=op, impl=a, model=m,
-                                    text="Lean model and library differ while the library agrees with the Spec oracle"
-                                    if is_pd_line(op) else "Lean model and library differ", batch=batch))
+                                    text=("Lean model and library differ while the library agrees with the Spec oracle"
+                                          if is_pd_line(op) else "Lean model and library differ") + note, batch=batch))
     shutil.rmtree(d, ignore_errors=True)
     return res
 
@@ -224,7 +250,8 @@ def signature(f):
     if len(t) < 5:
         return f"{f['kind']}|{f['config']}"
     txt = re.sub(r"\d+", "N", f["text"].split("(")[0]).strip()
-    return f"{f['kind']}|op={t[0]}|ca={t[1]}|{t[2]}|{t[3]}|{t[4]}|{f['config']}|{txt}"
+    wide = "|wide-row" if len(t) > 8 and t[8].startswith("@") else ""
+    return f"{f['kind']}|op={t[0]}|ca={t[1]}|{t[2]}|{t[3]}|{t[4]}|{f['config']}|{txt}{wide}"
 
 
 def report(ctx, findings, limit=6):
